@@ -98,3 +98,89 @@ pub(crate) fn mk_reader_with_id(record_id: u64) -> LogReader<'static> {
 	r.record_id = record_id;
 	r
 }
+
+// ================================================================== U26: chunk records of one log record accumulate
+// their modified-slot masks. A chunk (index page / ref-count page) changed in several slots by one record is logged once,
+// with the union of the slot bits: the apply pass (enact_plan) copies exactly the masked slots into the file.
+fn ok<T>(r: Result<T>) -> Option<T> {
+	match r {
+		Ok(v) => Some(v),
+		Err(e) => {
+			std::mem::forget(e);
+			None
+		},
+	}
+}
+
+macro_rules! writer_harness {
+	($(#[$m:meta])* $name:ident, $body:expr) => {
+		#[kani::proof]
+		#[kani::solver(kissat)]
+		$(#[$m])*
+		#[kani::stub(std::hash::RandomState::new, crate::verif_stubs::random_state_new)]
+		#[kani::stub(parking_lot::RawRwLock::lock_shared_slow, crate::verif_stubs::lock_shared_slow)]
+		#[kani::stub(parking_lot::RawRwLock::unlock_shared_slow, crate::verif_stubs::unlock_shared_slow)]
+		#[kani::stub(parking_lot::RawRwLock::lock_exclusive_slow, crate::verif_stubs::lock_exclusive_slow)]
+		#[kani::stub(parking_lot::RawRwLock::unlock_exclusive_slow, crate::verif_stubs::unlock_exclusive_slow)]
+		#[kani::stub(std::fmt::format, crate::verif_stubs::fmt_format)]
+		fn $name() {
+			$body
+		}
+	};
+}
+
+fn u26_ref_count_body() {
+	let overlays: &'static RwLock<LogOverlays> = Box::leak(Box::new(RwLock::new(LogOverlays::with_columns(0))));
+	let rid: u64 = kani::any();
+	let mut w = std::mem::ManuallyDrop::new(LogWriter::new(overlays, rid));
+	let table = RefCountTableId::new(0, 16);
+	let s1: u8 = kani::any();
+	let s2: u8 = kani::any();
+	kani::assume(s1 < 64 && s2 < 64);
+	let b1: u8 = kani::any();
+	let b2: u8 = kani::any();
+	let b3: u8 = kani::any();
+	w.insert_ref_count(table, 5, s1, RefCountChunk([b1; std::mem::size_of::<RefCountChunk>()]));
+	w.insert_ref_count(table, 9, 3, RefCountChunk([b3; std::mem::size_of::<RefCountChunk>()]));
+	w.insert_ref_count(table, 5, s2, RefCountChunk([b2; std::mem::size_of::<RefCountChunk>()]));
+	let m = &w.log.local_ref_count.get(&table).unwrap().map;
+	let e = m.get(&5).unwrap();
+	assert!(e.0 == rid, "U26.ref_count.record_id");
+	assert!(e.1 == (1u64 << s1) | (1u64 << s2), "U26.ref_count.mask_is_union_of_modified_slots");
+	let q: usize = kani::any();
+	kani::assume(q < std::mem::size_of::<RefCountChunk>());
+	assert!(e.2 .0[q] == b2, "U26.ref_count.latest_chunk_content");
+	let f = m.get(&9).unwrap();
+	assert!(f.1 == 1u64 << 3 && f.2 .0[q] == b3, "U26.ref_count.other_chunks_untouched");
+	assert!(m.len() == 2, "U26.ref_count.one_record_per_chunk");
+	kani::cover!(s1 != s2, "reached");
+}
+writer_harness!(#[kani::unwind(6)] u26_ref_count_masks_accumulate, u26_ref_count_body());
+
+fn u26_index_body() {
+	let overlays: &'static RwLock<LogOverlays> = Box::leak(Box::new(RwLock::new(LogOverlays::with_columns(0))));
+	let rid: u64 = kani::any();
+	let mut w = std::mem::ManuallyDrop::new(LogWriter::new(overlays, rid));
+	let table = IndexTableId::new(0, 16);
+	let s1: u8 = kani::any();
+	let s2: u8 = kani::any();
+	kani::assume(s1 < 64 && s2 < 64);
+	let b1: u8 = kani::any();
+	let b2: u8 = kani::any();
+	let b3: u8 = kani::any();
+	w.insert_index(table, 5, s1, IndexChunk([b1; std::mem::size_of::<IndexChunk>()]));
+	w.insert_index(table, 9, 3, IndexChunk([b3; std::mem::size_of::<IndexChunk>()]));
+	w.insert_index(table, 5, s2, IndexChunk([b2; std::mem::size_of::<IndexChunk>()]));
+	let m = &w.log.local_index.get(&table).unwrap().map;
+	let e = m.get(&5).unwrap();
+	assert!(e.0 == rid, "U26.index.record_id");
+	assert!(e.1 == (1u64 << s1) | (1u64 << s2), "U26.index.mask_is_union_of_modified_slots");
+	let q: usize = kani::any();
+	kani::assume(q < std::mem::size_of::<IndexChunk>());
+	assert!(e.2 .0[q] == b2, "U26.index.latest_chunk_content");
+	let f = m.get(&9).unwrap();
+	assert!(f.1 == 1u64 << 3 && f.2 .0[q] == b3, "U26.index.other_chunks_untouched");
+	assert!(m.len() == 2, "U26.index.one_record_per_chunk");
+	kani::cover!(s1 != s2, "reached");
+}
+writer_harness!(#[kani::unwind(6)] u26_index_masks_accumulate, u26_index_body());
